@@ -132,10 +132,10 @@ __CPROVER_ensures(HOLDS(self, g_j))
 ''',
     ('ghost', 'Buffer_ensureWritableSize', 'entry'): 'v_mc_off[0] = g_j; v_mc_off[1] = g_j;',
     ('contract', 'Buffer_hasWritten'): REQ_SELF + r'''
-__CPROVER_requires(write_size < V_MAXSZ && HOLDS_CAP(self, g_j))
+__CPROVER_requires(HOLDS_CAP(self, g_j))                                   /* ANY write_size: the clamp must not wrap */
 __CPROVER_assigns(self->write_index_)
 __CPROVER_ensures(BSHAPE(self))
-__CPROVER_ensures(self->write_index_ == V_MIN2(__CPROVER_old(self->write_index_) + write_size, self->buffer_size_))
+__CPROVER_ensures(self->write_index_ == (write_size > self->buffer_size_ - __CPROVER_old(self->write_index_) ? self->buffer_size_ : __CPROVER_old(self->write_index_) + write_size))
 __CPROVER_ensures(HOLDS(self, g_j))
 ''',
     ('contract', 'Buffer_append'): REQ_SELF + r'''
@@ -152,7 +152,7 @@ __CPROVER_ensures(HOLDS(self, g_j))
     ('ghost', 'Buffer_append', 'entry'): 'size_t g_old_readable = READABLE(self);',
     ('ghost', 'Buffer_append', 'before_call:memcpy:1'): 'v_mc_off[0] = g_j - g_old_readable; v_mc_off[1] = v_mc_off[0];',
     ('contract', 'Buffer_hasRead'): REQ_SELF + r'''
-__CPROVER_requires(read_size < V_MAXSZ && HOLDS(self, g_j))
+__CPROVER_requires(HOLDS(self, g_j))                                       /* ANY read_size: the clamp must not wrap */
 __CPROVER_assigns(self->read_index_, self->write_index_)
 __CPROVER_ensures(BSHAPE(self))
 __CPROVER_ensures(READABLE(self) == OLD_READABLE - V_MIN2(read_size, OLD_READABLE))
